@@ -136,3 +136,51 @@ Theorem C17_leading_lines_includes : forall t fs c fname pad cp eofp lp,
   forall src,
   result_shifted_inc fname (count_nl pad) (assemble_source t fs c fname src) (assemble_source t fs c fname (pad ++ src)).
 Proof. exact leading_lines_shift_inc. Qed.
+
+(** The end-of-file token of every successful scan: it is the last token and the only EOF, carries
+    the last line (= the number of line ends of the text) and the length of that last line as its
+    column, and the line Token.trace() quotes for it through its special case (file.lines[-1]) is the
+    line file.lines[line] the general rule would quote: a "reached the end" parse error names the
+    last line of the file that ended. *)
+From A816 Require Import Proofs.EofToken.
+Theorem C17_eof_token : forall lx file s toks lines,
+  lexicon_ok lx = true -> scan lx file s = ScanOk toks lines -> eof_spec file s toks lines.
+Proof. exact scan_eof_token. Qed.
+
+Theorem C17_eof_token_expression : forall file s toks lines,
+  scan_expression file s = ScanOk toks lines -> eof_spec file s toks lines.
+Proof. exact scan_expression_eof_token. Qed.
+
+Theorem C17_eof_trace : forall lx file s toks lines,
+  lexicon_ok lx = true -> scan lx file s = ScanOk toks lines ->
+  Forall (fun t => Messages.token_trace lines t = token_trace_plain lines t) toks.
+Proof. exact eof_trace_special_case_redundant. Qed.
+
+(** Where a ParserSyntaxError points: at a token of an included file's own parse, or at the token at
+    an index i of the token list (past the end: the position-less EOF) such that every token list
+    with the same first i + 1 tokens fails at that same token — the statements behind the reported
+    token have no say in the report.  The one exception is spelled out: "( e , x )" followed by an
+    operator is reported at the index register, and then the next two tokens matter. *)
+From A816 Require Import Proofs.ParseFail.
+Theorem C17_parse_error_locus : forall fuel incfuel inc ts t,
+  parse_program fuel incfuel inc ts = PErr EParse (Some t) ->
+  (exists name toks j, incfuel = S j /\ inc name = Ok toks /\
+                       parse_file j inc (parse_fuel (length toks)) toks = PErr EParse (Some t)) \/
+  exists i, t = nth i ts eof_token /\
+    ((forall ts', agree (S i) ts ts' -> parse_program fuel incfuel inc ts' = PErr EParse (Some t)) \/
+     (quirk ts i /\
+      forall ts', agree (i + 3) ts ts' -> parse_program fuel incfuel inc ts' = PErr EParse (Some t))).
+Proof. exact parse_error_locus. Qed.
+
+Theorem C17_parse_error_token : forall fuel incfuel inc ts t,
+  parse_program fuel incfuel inc ts = PErr EParse (Some t) ->
+  (exists name toks j, incfuel = S j /\ inc name = Ok toks /\
+                       parse_file j inc (parse_fuel (length toks)) toks = PErr EParse (Some t)) \/
+  In t ts \/ t = eof_token.
+Proof. exact parse_error_token. Qed.
+
+Print Assumptions C17_eof_token.
+Print Assumptions C17_eof_token_expression.
+Print Assumptions C17_eof_trace.
+Print Assumptions C17_parse_error_locus.
+Print Assumptions C17_parse_error_token.
